@@ -24,6 +24,18 @@ CHECKS = {
         text="TLC checks operational schedule = declarative schedule (rows, order, multiplicity, window [start, stop), refusal iff empty) for every table/window/direction/mode/frequency in the bound; thousands of generated release files (column orders, header or names, separators, time spellings, mult 0-3, extra int/float columns, forward/reversed, discrete/continuous) are run through the real TimeKeeper + State + ParticleReleaser and every step's new particles (count, pids, payload, release_time) are validated by TLC against the declarative schedule.",
         note="Quantifier of C04: table sorted in simulation order, times on the model grid, continuous file times on the tick grid. lon/lat conversion is decided under C16. Trusted: numpy datetime parsing in the harness, TLC.",
         design="6 C04"),
+    "C03": dict(
+        level="model_checking",
+        technique="TLA+ spec Frames (declarative Lerp/latest-frame + operational incremental algorithm with file switching) model-checked with TLC (MC_Frames); exact lattice trace validation of the real TimeKeeper+Grid+Forcing (ForceTrace)",
+        text="TLC checks that the incremental algorithm (pre-roll, hand-over, scalars, read-ahead, increment, file switch) keeps the field equal to the linear interpolation of the bracketing frames at frac 0, 1/2, 1 and the scalar equal to the latest frame, and that every read hits an existing frame of the right file, for every frame layout/partition/offset/run length/direction in the bound; thousands of generated forcing file sets are run through the real Forcing and velocity(0|1/2|1), variables[u|v] and scalar forcing at every step are validated by TLC with integer equality.",
+        note="Frames on the model time grid; node values chosen so float32 arithmetic is exact. Trusted: netCDF4 writing of the inputs, TLC.",
+        design="6 C03"),
+    "C02": dict(
+        level="model_checking",
+        technique="TLA+ spec Interp/Vertical/Fields: sampling geometry model-checked with TLC (MC_Interp) for all sub-rectangles/masks/positions; exact lattice trace validation of the real Grid+Forcing on identifying node values (ForceTrace)",
+        text="TLC checks, for every legal sub-rectangle, window mask and quarter-cell position of the valid/clipped region, that the local index arithmetic denotes the declarative corners, stays inside the loaded arrays, masks exactly the land faces, and that the weights are convex and exact on linear fields; generated grids (land, variable bathymetry, 2-3 levels, sub-rectangles, packed/float) with node values that identify every index and weight are run through the real Grid and Forcing and every probe value (velocity at three fractional times, variables, scalar) is validated by TLC with integer equality.",
+        note="Lattice probes only (quarter cells; level gaps 20/40 m); at exact cell edges either neighbouring own cell is accepted. Off-lattice numerics are not examined (DESIGN 7).",
+        design="6 C02"),
 }
 
 NOT_YET = {}
